@@ -619,7 +619,12 @@ def r15_id_per_operation(c, facts, rule='C03.R15'):
                 sl = MF.slice_back(fn, xt['args'][2]['l'], idx)
                 if not any(ct is t for _, ct, _ in sl['calls']):
                     own = False
-        if b in fn.reachable_from(t['target'], avoid=xid):
+        # an iteration that stores an operation (`Some(op)` of an Option<Operation>) has called xfer_id first; an iteration
+        # that stores nothing (a method the relation does not have) needs no id
+        sinks = {bb for bb, blk in fn.blocks() for st in blk['stmts'] if st['s'] == 'assign' and st['rv']['r'] == 'aggr'
+                 and (st['rv'].get('adt') or '').endswith('option::Option') and st['rv'].get('variant') == 'Some' and 'Operation' in str(st['rv'].get('gargs'))}
+        free = fn.reachable_from(t['target'], avoid=xid | {b})
+        if (sinks & free) if sinks else (b in fn.reachable_from(t['target'], avoid=xid)):
             c.bad(R, 'operation-without-own-id', 'relation_path_item can finish an iteration over the methods without calling xfer_id: the operation of that method carries an id computed for another method (two operations, one operationId)')
         elif not own:
             c.bad(R, 'id-for-another-method', 'the method handed to xfer_id is not the one of the iteration')
